@@ -330,11 +330,75 @@ fn $name(depth: usize) -> i32 {
 notified_impl!(notified_tokio, zlink_tokio);
 notified_impl!(notified_smol, zlink_smol);
 
+/// C19 halves: the two halves of a connection are independent directions of ONE socket.  The connection is split, the
+/// write half is dropped (a writer task that finished), and the peer goes on sending: the read half must still receive
+/// every frame, in order - dropping one half must not disturb the other direction.
+fn halves_frames() -> Vec<Vec<u8>> {
+    (0..40u32).map(|i| { let mut f = format!(r#"{{"parameters":{{"n":{i},"pad":"{}"}}}}"#, "p".repeat(1000 * (i as usize % 5))).into_bytes(); f.push(0); f }).collect()
+}
+#[derive(Debug, serde::Deserialize)]
+struct HalvesP { n: u32 }
+#[derive(Debug, serde::Deserialize)]
+#[serde(tag = "error", content = "parameters")]
+enum HalvesE {}
+fn halves_tokio() -> i32 {
+    let rt = tokio::runtime::Builder::new_current_thread().enable_all().build().unwrap();
+    let ls = tokio::task::LocalSet::new();
+    ls.block_on(&rt, async {
+        use tokio::io::AsyncWriteExt;
+        let (a, mut b) = tokio::net::UnixStream::pair().unwrap();
+        let conn = zlink_tokio::Connection::new(zlink_tokio::unix::Stream::from(a));
+        let (mut read, write) = conn.split();
+        drop(write);
+        let writer = tokio::task::spawn_local(async move { for f in halves_frames() { if let Err(e) = b.write_all(&f).await { return Err(format!("{e}")); } tokio::task::yield_now().await; } Ok(b) });
+        let mut got = Vec::new();
+        for _ in 0..40 {
+            match tokio::time::timeout(Duration::from_secs(10), read.receive_reply::<HalvesP, HalvesE>()).await {
+                Ok(Ok(Ok(r))) => got.push(r.parameters().map(|p| p.n)),
+                other => { println!("receive #{} failed: {other:?}", got.len()); break; }
+            }
+        }
+        let w = writer.await.unwrap();
+        judge_halves(&got, w.err())
+    })
+}
+fn halves_smol() -> i32 {
+    use futures_lite::{future, AsyncWriteExt};
+    future::block_on(async {
+        let (a, b) = std::os::unix::net::UnixStream::pair().unwrap();
+        let a = async_io::Async::new(a).unwrap();
+        let mut b = async_io::Async::new(b).unwrap();
+        let conn = zlink_smol::Connection::new(zlink_smol::unix::Stream::from(a));
+        let (mut read, write) = conn.split();
+        drop(write);
+        let send = async { for f in halves_frames() { if let Err(e) = b.write_all(&f).await { return Some(format!("{e}")); } future::yield_now().await; } None };
+        let recv = async {
+            let mut got = Vec::new();
+            for _ in 0..40 {
+                let r = future::or(async { Some(read.receive_reply::<HalvesP, HalvesE>().await) }, async { async_io::Timer::after(Duration::from_secs(10)).await; None }).await;
+                match r { Some(Ok(Ok(r))) => got.push(r.parameters().map(|p| p.n)), other => { println!("receive #{} failed: {:?}", got.len(), other.map(|x| x.map(|_| ()).map_err(|e| format!("{e:?}")))); break; } }
+            }
+            got
+        };
+        let (werr, got) = future::zip(send, recv).await;
+        judge_halves(&got, werr)
+    })
+}
+fn judge_halves(got: &[Option<u32>], write_err: Option<String>) -> i32 {
+    let want: Vec<Option<u32>> = (0..40u32).map(Some).collect();
+    println!("peer write error: {write_err:?}; read half received {} of 40 replies", got.len());
+    if got == want.as_slice() && write_err.is_none() { println!("clean: the read half received every frame after the write half was dropped"); 0 }
+    else { println!("REPLAY: FAILS on the real code (dropping the write half disturbed the other direction)"); 1 }
+}
+
 fn main() {
     if std::env::args().nth(1).as_deref() == Some("notified") {
         let depth: usize = std::env::args().nth(3).and_then(|d| d.parse().ok()).unwrap_or(6);
         let rc = match std::env::args().nth(2).as_deref() { Some("tokio") => notified_tokio(depth), Some("smol") => notified_smol(depth), _ => 2 };
         std::process::exit(rc);
+    }
+    if std::env::args().nth(1).as_deref() == Some("halves") {
+        std::process::exit(match std::env::args().nth(2).as_deref() { Some("tokio") => halves_tokio(), Some("smol") => halves_smol(), _ => 2 });
     }
     if std::env::args().nth(1).as_deref() == Some("atomic") {
         let mut rc = 0;
